@@ -334,7 +334,9 @@ def _intr_families(tier):
         return [("ip2", consts("pregel", 2, 3, 1, 2, marks=2, rerun=True, maxchoice=(3,)), {}),
                 ("id3", consts("dag", 3, 3, 1, 0, marks=2, rerun=True), {}),
                 ("iw3", consts("wf", 3, 4, 0, 0, marks=2, rerun=True), {}),
-                ("iw3b", consts("wf", 3, 3, 1, 0, marks=1, rerun=True), {})], 36000
+                ("iw3b", consts("wf", 3, 3, 1, 0, marks=1, rerun=True), {}),
+                # two branches: a node can be skipped by several predecessors, on both sides of an interrupt
+                ("id3bb", consts("dag", 3, 2, 2, 0, marks=1), {})], 44000
     return [("ip2", consts("pregel", 2, 4, 1, 2, marks=2, rerun=True, multi=True, maxchoice=(3,)), {"timeout": 1800}),
             ("ip3", consts("pregel", 3, 3, 1, 1, marks=2, rerun=True, maxchoice=(3,)), {"timeout": 1800}),
             ("id3", consts("dag", 3, 4, 1, 0, marks=2, rerun=True, multi=True), {"timeout": 1800}),
@@ -364,7 +366,7 @@ def c06(tier, repo=None):
     fams = fams + [("if2", consts("pregel", 2, 3, 1, 1, marks=1, fail=True, maxchoice=(3,)), {})]     # errors must not write a checkpoint
     return run_engine_check("C06", tier, model_cfgs=["MC_EinoRun_pregel2.cfg", "MC_EinoRun_nest_after.cfg"] + (["MC_EinoRun_dag3.cfg", "MC_EinoRun_nest_before.cfg"] if tier == "thorough" else []),
                             model_must_fail=["MC_EinoRun_nostartcheck.cfg"],
-                            families=fams, decorate_kw={"noid_frac": 0.12, "state_frac": 0.3, "all_paradigms": True}, nontrivial=nontrivial, nest_frac=0.12,
+                            families=fams, decorate_kw={"noid_frac": 0.12, "state_frac": 0.3, "all_paradigms": True, "storefail_frac": 0.06}, nontrivial=nontrivial, nest_frac=0.12,
                             nest_marks=True, limit=limit, repo=repo,
                             assumptions=["'stops before any of its successors starts' is read per the statement: only successors triggered by the after-node are constrained"])
 
